@@ -367,6 +367,8 @@ class Run:
                     await self.w.pause(f"{name}.p{k}")
                 if sp["kind"] == "raise":
                     rec["end"] = "raise"
+                    rec["end_at"] = len(self.w.trace)
+                    rec["end_phase"] = tuple(self.phase)
                     raise SpawnErr(name)
                 rec["end"] = "ret"
             except asyncio.CancelledError:
